@@ -185,8 +185,8 @@ def check_history(prog, ctor, ops, props):
     ctx = models.InputCtx(4)
     ex = v1sum.new_exec(prog, [ctx], 4)
     ex.suffix = ''
-    import models_v2 as _mv2, models_it as _mit
-    ex.hooks = [models_b.hook, _mv2.hook, _mit.hook]
+    import models_v2 as _mv2, models_it as _mit, models_more as _mm
+    ex.hooks = [models_b.hook, _mm.hook, _mv2.hook, _mit.hook]
     out = {}
 
     def run(e):
@@ -323,8 +323,8 @@ def check_history2(prog, ctor, ops, props):
     ctx = models.InputCtx(4)
     ex = v1sum.new_exec(prog, [ctx], 4)
     ex.suffix = ''
-    import models_v2 as _mv2, models_it as _mit
-    ex.hooks = [models_b.hook, _mv2.hook, _mit.hook]
+    import models_v2 as _mv2, models_it as _mit, models_more as _mm
+    ex.hooks = [models_b.hook, _mm.hook, _mv2.hook, _mit.hook]
 
     def run(e):
         o, g, vc, want_afp = run_history(e, prog, ctor, ops)
@@ -524,8 +524,8 @@ def c20_write_to(prog, label='c20_write_to'):
     for lab, maker in value_cases(prog):
         ex = v1sum.new_exec(prog, [], 0)
         ex.suffix = ''
-        import models_v2 as _m2, models_it as _mit
-        ex.hooks = [models_b.hook, _m2.hook, _mit.hook]
+        import models_v2 as _m2, models_it as _mit, models_more as _mm
+        ex.hooks = [models_b.hook, _mm.hook, _m2.hook, _mit.hook]
 
         def run(e):
             ty, ref, enc, over, fixed = maker(e)
